@@ -126,7 +126,7 @@ def regenerate():
     missing = [l[8:] for l in out.split("\n") if l.startswith("MISSING ")]
     if rc != 0 and not missing:
         raise Infra("translator failed:\n" + out[-2000:])
-    return {"missing": missing, "summary": [l for l in out.split("\n") if l and not l.startswith("MISSING ")][:40]}
+    return {"missing": missing, "summary": [l for l in out.split("\n") if l and not l.startswith("MISSING ")][:400]}
 
 
 def props_file(pid):
